@@ -615,18 +615,21 @@ def c_runobs(r, tb):
     return "(mkRun %s %s %s)" % (c_trace(r["trace"], tb), c_outcome(r["outcome"]), c_files(r["files"], tb))
 
 
-def to_coq(case, obs):
-    tb = Table()
+def case_term(case, obs, tb):
     # register the long strings first so that prefixes refer to them
     new = utf8("".join(data_of(op) for op in case["body"] if op[0] == "w"))
     if len(new) > 3:
         tb.ref(new)
-    term = "mkCase %s %s %s %s %s %s %s %s" % (
+    return "(mkCase %s %s %s %s %s %s %s %s)" % (
         c_cfg(case["cfg"]), cN(case.get("umask", 0o022)), c_init(case, tb),
         c_body(case, obs["run"]["trace"], tb), cbool(case.get("body_exc", False)), c_sched(case, tb),
         c_runobs(obs["run"], tb),
         clist("(%s, %s)" % (cnat(k), c_files(f, tb)) for k, f in obs["crashes"]))
-    return tb.wrap(term)
+
+
+def to_coq(case, obs):
+    tb = Table()
+    return tb.wrap(case_term(case, obs, tb))
 
 
 # ---------------------------------------------------------------------------
